@@ -212,9 +212,15 @@ class Engine:
         bindings of the frame) is pruned.  Findings are keyed by event signatures, not token names."""
         if not self.memoise:
             return False
+        hist: dict[str, list] = {}
+        for e, _ in st.trace:
+            if e.tok is not None:
+                hist.setdefault(e.tok, []).append((e.kind, e.detail, e.func))
+
         def tstate(t: str):
             i = st.istates.get(t)
-            return (tuple(sorted(i.status)), i.own, i.queued, i.responsible, i.accepted) if i else None
+            # the per-token event history is part of the state: the rules are functions of it
+            return (tuple(sorted(i.status)), i.own, i.queued, i.responsible, i.accepted, tuple(hist.get(t, ()))) if i else None
 
         # token names are erased: states are compared up to renaming of tokens
         sk = tuple(sorted(tstate(t) for t in st.istates))
